@@ -261,6 +261,34 @@ Example C15_forward_nonvacuous :
 Proof. exact fwd_demo_run. Qed.
 Print Assumptions C15_forward_nonvacuous.
 
+(* ---- the Proxy drops a client entry only for that client's own shutdown ----------------------- *)
+(* every Proxy step (talk / talkSub with ANY packet ID incl. SvShutdown, SvDrop, SvResync, naming
+   registered, unregistered or colliding devices; accept): an entry that is gone afterwards was the
+   entry of the device the packet names, and the packet was that device's SvShutdown *)
+Theorem C15_proxy_prunes_only_named :
+  forall x o x' r k c,
+  pstep x o = (x', r) -> pwf (x_clients x) -> x_clients x !! k = Some c -> x_clients x' !! k = None ->
+  pop_accept o = false /\ l_pid (pop_leaf o) = SvShutdown /\ c_id c = l_dev (pop_leaf o) /\ k = hash (l_dev (pop_leaf o)).
+Proof. exact proxy_prunes_only_named. Qed.
+Print Assumptions C15_proxy_prunes_only_named.
+
+(* ---- packets written without a Device ------------------------------------------------------------ *)
+(* they land where a packet naming d lands (d's queue, or the queue of the host whose Channel currently
+   tags d), and whatever a Channel connection sends next carries the device it was QUEUED with: picking
+   a packet up from a relay's queue never relabels it *)
+Theorem C15_deviceless_send_lands :
+  forall w d lbl pid job, routes_current w ->
+  exists q, (q = hash d \/ (w_route w !! hash d = Some q /\ exists l, w_subs w !! q = Some l /\ In (hash d) l)) /\
+            forall k, k <> q -> w_tbl (cstep w (KSendAs d lbl pid job)).1 !! k = w_tbl w !! k.
+Proof. exact send_as_lands. Qed.
+Print Assumptions C15_deviceless_send_lands.
+
+Theorem C15_channel_drain_keeps_labels :
+  forall w d w' k l o, cstep w (KDrain d) = (w', AReply k l) -> In o l ->
+  exists hk h, chan_open_key w d = Some hk /\ w_tbl w !! hk = Some h /\ In o (s_out h).
+Proof. exact drain_keeps_labels. Qed.
+Print Assumptions C15_channel_drain_keeps_labels.
+
 (* ---- the code as it was before the fix: commits (chk = false), with the real pair ------------- *)
 (* Server.Session(B) returned A's session; a packet naming B updated the address / last-seen time
    of A's session and overwrote its key material before receive() refused it (talk and talkSub);
